@@ -1,12 +1,12 @@
 import Httoop.Proofs.Rfc
 /-
-  `URI.abspath()` followed by `normalize()`'s leading-slash repair equals RFC 3986 §5.2.4
+  `URI.abspathCore()` followed by `normalize()`'s leading-slash repair equals RFC 3986 §5.2.4
   `remove_dot_segments` of the collapsed path, for every absolute path.
 -/
 namespace Httoop.Uri
 open Httoop Httoop.Rfc3986
 
-/-- what `normalize()` does to the path of a URI with scheme and host after `abspath()` -/
+/-- what `normalize()` does to the path of a URI with scheme and host after `abspathCore()` -/
 def normFix (x : Bytes) : Bytes := if !startsWith x [0x2F] && !x.isEmpty then 0x2F :: x else x
 
 /-- forward stack step of the RFC machine -/
@@ -31,7 +31,7 @@ theorem rfcSegs_append_last (init : List Bytes) (l : Bytes) (st : List Bytes) :
       · exact ih _
       · exact ih _
 
-/-- the reversed stack of `abspath` represents the RFC stack: with the root segment still on it, or popped -/
+/-- the reversed stack of `abspathCore` represents the RFC stack: with the root segment still on it, or popped -/
 def Rel (stR st : List Bytes) : Prop := stR.reverse = [] :: st ∨ stR.reverse = st
 
 theorem dd_ne_d : ¬ dotdotS = dotS := by decide
@@ -208,16 +208,16 @@ theorem split_outOf (segs : List Bytes) (hne : segs ≠ []) (hc : ∀ s ∈ segs
 theorem fold_append_last (init : List Bytes) (l : Bytes) (s0 : List Bytes × Bool) :
     (init ++ [l]).foldl step s0 = step (init.foldl step s0) l := by simp [List.foldl_append]
 
-/-- **`abspath` + leading-slash repair = RFC 3986 §5.2.4** on "/s1/…/sn/l" (interior segments non-empty) -/
-theorem abspath_outOf (init : List Bytes) (l : Bytes) (hinit : ∀ s ∈ init, s ≠ [] ∧ Clean slash s) (hl : Clean slash l) :
-    normFix (abspath (outOf (init ++ [l]))) = removeDotSegments (outOf (init ++ [l])) := by
+/-- **`abspathCore` + leading-slash repair = RFC 3986 §5.2.4** on "/s1/…/sn/l" (interior segments non-empty) -/
+theorem abspathCore_outOf (init : List Bytes) (l : Bytes) (hinit : ∀ s ∈ init, s ≠ [] ∧ Clean slash s) (hl : Clean slash l) :
+    normFix (abspathCore (outOf (init ++ [l]))) = removeDotSegments (outOf (init ++ [l])) := by
   have hc : ∀ s ∈ init ++ [l], Clean slash s := by
     intro s hs
     rcases List.mem_append.mp hs with h | h
     · exact (hinit s h).2
     · simp at h; subst h; exact hl
   rw [removeDotSegments_segs _ hc, rfcSegs_append_last]
-  unfold abspath
+  unfold abspathCore
   simp only [collapse_outOf init l hinit hl]
   have hq : (outOf (init ++ [l])).isEmpty = false := by
     cases init <;> simp [outOf]
@@ -281,23 +281,23 @@ theorem abspath_outOf (init : List Bytes) (l : Bytes) (hinit : ∀ s ∈ init, s
     simpa using this
 
 
-theorem abspath_collapse (p : Bytes) (hq : (collapse p).isEmpty = false) : abspath p = abspath (collapse p) := by
-  unfold abspath
+theorem abspathCore_collapse (p : Bytes) (hq : (collapse p).isEmpty = false) : abspathCore p = abspathCore (collapse p) := by
+  unfold abspathCore
   have : collapse (collapse p) = collapse p := collapse_of_noDbl _ (collapse_noDbl p)
   simp only [this, hq, Bool.false_eq_true, if_false]
 
 /-- **C11, the RFC clause.**  For every path that begins with a slash: what `normalize()` leaves as the path
-    (`abspath()`, then the leading slash put back when `..` had removed it) is RFC 3986 §5.2.4
+    (`abspathCore()`, then the leading slash put back when `..` had removed it) is RFC 3986 §5.2.4
     `remove_dot_segments` applied to the path with its slash runs collapsed. -/
-theorem abspath_eq_rfc (p : Bytes) (h : startsWith p [0x2F] = true) :
-    normFix (abspath p) = removeDotSegments (collapse p) := by
+theorem abspathCore_eq_rfc (p : Bytes) (h : startsWith p [0x2F] = true) :
+    normFix (abspathCore p) = removeDotSegments (collapse p) := by
   obtain ⟨p', rfl⟩ : ∃ p', p = 0x2F :: p' := by
     cases p with
     | nil => simp [startsWith] at h
     | cons a p' => simp [startsWith] at h; exact ⟨p', by rw [h]⟩
   obtain ⟨t, ht⟩ := collapse_head 0x2F p'
   have hq : (collapse (0x2F :: p')).isEmpty = false := by rw [ht]; rfl
-  rw [abspath_collapse _ hq, ht]
+  rw [abspathCore_collapse _ hq, ht]
   have hnd : NoDbl (0x2F :: t) := ht ▸ collapse_noDbl _
   -- the segments
   have hsplit : splitOn1 0x2F (0x2F :: t) = [] :: splitOn1 0x2F t := by simp [splitOn1]
@@ -325,6 +325,6 @@ theorem abspath_eq_rfc (p : Bytes) (h : startsWith p [0x2F] = true) :
     rw [← this]
     exact join_root (init ++ [l]) (by simp)
   rw [hqo]
-  exact abspath_outOf init l hinit (hclean l (by simp))
+  exact abspathCore_outOf init l hinit (hclean l (by simp))
 
 end Httoop.Uri
